@@ -171,22 +171,24 @@ def interpIncoming (v : WVal) (remaining : Bytes) : Option Incoming :=
     if i = SyncType_Hello then some (.hello p)
     else match p with
       | .tuple fs =>
-        if i = SyncType_Poll then do
-          let m ← interpRequest (← fld fs SyncType_Poll_request)
-          pure (.poll m.session m)
-        else if i = SyncType_Subscribe then do
-          let ro ← asNat (fld fs SyncType_Subscribe_remain_open)
-          let mb ← asNat (fld fs SyncType_Subscribe_max_bytes)
-          let cs ← asSeq (fld fs SyncType_Subscribe_commands)
-          let g ← asBytes (fld fs SyncType_Subscribe_graph_id)
-          pure (.subscribe g ro mb cs)
-        else if i = SyncType_Unsubscribe then do
-          let g ← asBytes (fld fs SyncType_Unsubscribe_graph_id)
-          pure (.unsubscribe g)
-        else if i = SyncType_Push then do
-          let m ← interpResponse (← fld fs SyncType_Push_message)
-          let g ← asBytes (fld fs SyncType_Push_graph_id)
-          pure (.push g m.session m remaining)
+        if i = SyncType_Poll then
+          match (fld fs SyncType_Poll_request).bind interpRequest with
+          | some m => some (.poll m.session m)
+          | none => none
+        else if i = SyncType_Subscribe then
+          match asNat (fld fs SyncType_Subscribe_remain_open), asNat (fld fs SyncType_Subscribe_max_bytes),
+            asSeq (fld fs SyncType_Subscribe_commands), asBytes (fld fs SyncType_Subscribe_graph_id) with
+          | some ro, some mb, some cs, some g => some (.subscribe g ro mb cs)
+          | _, _, _, _ => none
+        else if i = SyncType_Unsubscribe then
+          match asBytes (fld fs SyncType_Unsubscribe_graph_id) with
+          | some g => some (.unsubscribe g)
+          | none => none
+        else if i = SyncType_Push then
+          match (fld fs SyncType_Push_message).bind interpResponse,
+            asBytes (fld fs SyncType_Push_graph_id) with
+          | some m, some g => some (.push g m.session m remaining)
+          | _, _ => none
         else none
       | _ => none
   | _ => none
@@ -234,29 +236,38 @@ structure CmdOut where
 
 def usizeLimit : Nat := 2 ^ 64
 
+/-- `start.checked_add(len)` then `remaining.get(start..end)`, either failing is
+`MalformedResponse` -/
+def takeRange (start len remLen : Nat) : Except SyncErr (Nat × Nat) :=
+  if ¬ (start + len < usizeLimit) then .error .malformedResponse
+  else if ¬ (start + len ≤ remLen) then .error .malformedResponse
+  else .ok (start, start + len)
+
+/-- the policy part of one command: `None` when `policy_length == 0`; returns the new offset -/
+def slicePolicy (policyLen start remLen : Nat) : Except SyncErr (Option (Nat × Nat) × Nat) :=
+  if policyLen = 0 then .ok (none, start)
+  else match takeRange start policyLen remLen with
+    | .error e => .error e
+    | .ok r => .ok (some r, r.2)
+
 /-- the `for meta in commands` loop of `get_sync_commands`: `remLen = remaining.len()`,
 `start` the running offset, `count` the number of commands already pushed to `result` -/
 def sliceCmds : List Meta → Nat → Nat → Nat → Except SyncErr (List CmdOut)
   | [], _, _, _ => .ok []
   | m :: ms, remLen, start, count =>
-    -- policy: `None` when `policy_length == 0`, else `remaining.get(start..start+policy_len)`
-    let pol : Except SyncErr (Option (Nat × Nat) × Nat) :=
-      if m.policyLen = 0 then .ok (none, start)
-      else if ¬ (start + m.policyLen < usizeLimit) then .error .malformedResponse
-      else if ¬ (start + m.policyLen ≤ remLen) then .error .malformedResponse
-      else .ok (some (start, start + m.policyLen), start + m.policyLen)
-    match pol with
+    match slicePolicy m.policyLen start remLen with
     | .error e => .error e
     | .ok (policy, start1) =>
-      if ¬ (start1 + m.len < usizeLimit) then .error .malformedResponse
-      else if ¬ (start1 + m.len ≤ remLen) then .error .malformedResponse
-      else if ¬ (count < COMMAND_RESPONSE_MAX) then .error .bug   -- `result.push` on a full vec
-      else
-        match sliceCmds ms remLen (start1 + m.len) (count + 1) with
-        | .error e => .error e
-        | .ok out =>
-          .ok ({ id := m.id, priority := m.priority, parent := m.parent, policy := policy,
-                 data := (start1, start1 + m.len) } :: out)
+      match takeRange start1 m.len remLen with
+      | .error e => .error e
+      | .ok data =>
+        if ¬ (count < COMMAND_RESPONSE_MAX) then .error .bug   -- `result.push` on a full vec
+        else
+          match sliceCmds ms remLen data.2 (count + 1) with
+          | .error e => .error e
+          | .ok out =>
+            .ok ({ id := m.id, priority := m.priority, parent := m.parent, policy := policy,
+                   data := data } :: out)
 
 abbrev RecvRes := Except SyncErr (Option (List CmdOut))
 
